@@ -125,6 +125,11 @@ def r2(chk, ctx, p, se):
         ok = "context['State']['RetryCount'] = retries" in body and "context['State']['RetryTimeout'] = timeout * 1000" in body
         chk.ob("C07.R2", "RetryCount stored after increment; RetryTimeout = delay in ms", ok, "", key="%s | stored retry fields" % he.qname, where=he.where(a), message="")
         chk.ob("C07.R2", "retry republishes the same event", any("event_dispatcher.publish(event)" in s for s in body), "", key="%s | retry republish" % he.qname, where=he.where(a), message="")
+        et = [s for s in a.body if isinstance(s, ast.Assign) and norm(s.targets[0]) == "context['State']['EnteredTime']"]
+        ok = len(et) == 1 and norm(et[0].value) == "datetime.fromtimestamp(time.time() + timeout, timezone.utc).astimezone().isoformat()"
+        chk.ob("C07.R2", "the retried attempt's EnteredTime is now + delay (its timeout clock starts when it is re-run)", ok, norm(et[0].value) if et else "",
+               key="%s | EnteredTime of the retried attempt is `%s`" % (he.qname, norm(et[0].value) if et else "unset"), where=he.where(a),
+               message="the Task timeout of the re-run is computed from EnteredTime: without the delay it fires one retry interval early")
     # the three retriable handlers hand RetryTimeout to the timer
     n = 0
     for t in ("Task", "Parallel", "Map"):
@@ -242,6 +247,9 @@ def r4(chk, ctx, p, se):
                 inner = [i for i, arm in gi if "'%s' in" % f_ in norm(i.test)]
                 anchor = g.node_of(inner[0]) if inner else g.node_of(r)
                 ok = all(g.dominates(anchor, g.containing_stmt_node(c, se)) for c in loop_pubs)
+                # the only condition may be presence of the field: every batch / every entry must strip it
+                ok = ok and all(isinstance(i.test, ast.Compare) and len(i.test.ops) == 1 and isinstance(i.test.ops[0], ast.In) and const(i.test.left) == f_ for i in inner)
+                ok = ok and all(any(i is j for j in inner) for i, arm in gi)
             chk.ob("C07.R4", "%s removes %s from the context before publishing to the branches" % (f.name, f_), ok, "",
                    key="%s | %s stays in the context published to the branches" % (f.qname, f_), where=f.where(),
                    message="a retried Parallel/Map would start its branch states with its own retry count: their retriers get fewer attempts, wrong back-off, and StateEntered is suppressed")
@@ -266,9 +274,21 @@ def r5(chk, ctx, p, se):
            message="runtime errors, execution timeout and termination must not be retried or caught (not even by States.ALL)")
 
 
+def r6(chk, ctx, p, se):
+    """an execution timeout is recognised by identity of the delay with the clamped execution deadline (shared with C08.R3)"""
+    for qn in (".asl_state_Task_delegate.on_response", ".asl_state_Wait.on_timeout"):
+        f = p.deferred_targets[p.notify.qname + qn]
+        arms = [n for n in ast.walk(f.node) if isinstance(n, ast.If) and any(isinstance(s, ast.Assign) and "'States.ExecutionTimeout'" in norm(s) for s in n.body)]
+        ok = len(arms) == 1 and norm(arms[0].test) == "timeout == t1"
+        chk.ob("C07.R5", "%s: States.ExecutionTimeout is selected by `timeout == t1`" % f.name, ok, norm(arms[0].test) if arms else "",
+               key="%s | execution-timeout arm selected by `%s`" % (f.qname, norm(arms[0].test) if arms else "nothing"), where=f.where(),
+               message="when both deadlines are clamped to 0 (late or redelivered event) or are equal, any other test reports an ordinary, catchable States.Timeout")
+
+
 def run(chk, ctx):
     p = ctx.protocol()
     se = ctx.mod("state_engine")
+    r6(chk, ctx, p, se)
     r1(chk, ctx, p, se)
     r2(chk, ctx, p, se)
     r3(chk, ctx, p, se)
